@@ -251,7 +251,7 @@ theorem ignored_untagged {α} (c : ChromCtx) (a : Aln α)
   unfold tagAln ignoreRead
   rcases h with h | h | ⟨h1, h2⟩ <;> simp_all
 
-/-- a single region (or several regions of which no alignment overlaps two): after the repair F12 the
+/-- a single region (or several regions of which no alignment overlaps two): after the repair F17 the
 alignments written for a contig are exactly the input alignments that overlap a requested region, each
 once — as a multiset for any list of regions … -/
 theorem conservation_regions_perm {α} (alns : List (Aln α)) (earlier regions : List (Int × Option Int)) :
@@ -286,7 +286,7 @@ theorem conservation_single_region {α} (c : Chrom α) (r : Int × Option Int) :
   intro a _
   exact erase_tagAln c.ctx a
 
-/-- defect F12 on the faithful model: with the code as it is, an alignment that overlaps two requested
+/-- defect F17 on the faithful model: with the code as it is, an alignment that overlaps two requested
 regions is written twice -/
 example :
     let a : Aln Nat := ⟨0, "r", false, false, false, 10, 200, none, {}⟩
